@@ -135,9 +135,9 @@ func runC07(c *mon.Ctx) {
 			continue
 		}
 		r := c.Rng("models", i)
-		m := gen.RandomModel(r, gen.ModelOpts{MaxPES: 3, MaxPMT: 2, MaxSI: 3, MaxUnits: 3, Salt: true, RichAF: true})
+		m := gen.RandomModel(r, gen.ModelOpts{MaxPES: 3, MaxPMT: 2, MaxSI: 3, MaxUnits: 3, Salt: true, RichAF: true, Scrambled: i%3 == 1, SharedPMTPID: i%2 == 1})
 		for len(m.PIDs) < 3 {
-			m = gen.RandomModel(r, gen.ModelOpts{MaxPES: 3, MaxPMT: 2, MaxSI: 3, MaxUnits: 3, Salt: true, RichAF: true})
+			m = gen.RandomModel(r, gen.ModelOpts{MaxPES: 3, MaxPMT: 2, MaxSI: 3, MaxUnits: 3, Salt: true, RichAF: true, Scrambled: i%3 == 1, SharedPMTPID: i%2 == 1})
 		}
 		canon := m.BuildOrder(m.CanonicalOrder())
 		seq := map[uint16][]*astits.Packet{}
